@@ -5,8 +5,12 @@
 package gen
 
 import (
+	"encoding/json"
 	"math/big"
 	"math/rand"
+	"os"
+	"path/filepath"
+	"sync"
 
 	"pgregory.net/rapid"
 )
@@ -158,6 +162,41 @@ func LeadingZeroBytes(b []byte) int {
 	return n
 }
 
+var divstepSlowOnce sync.Once
+var divstepSlowVals []*big.Int
+
+func divstepSlow() []*big.Int {
+	divstepSlowOnce.Do(func() {
+		b, err := os.ReadFile(filepath.Join(os.Getenv("VERIF_DIR"), "vectors", "divstep_slow.json"))
+		if err != nil {
+			return
+		}
+		var doc struct {
+			Vectors []struct {
+				G string `json:"g"`
+			} `json:"vectors"`
+		}
+		if json.Unmarshal(b, &doc) != nil {
+			return
+		}
+		for _, v := range doc.Vectors {
+			if x, ok := new(big.Int).SetString(v.G, 16); ok {
+				divstepSlowVals = append(divstepSlowVals, x)
+			}
+		}
+	})
+	return divstepSlowVals
+}
+
+// GcdSlow draws one of the slow-to-invert residues of vectors/divstep_slow.json (nil when the file is absent).
+func GcdSlow(t *rapid.T, label string) *big.Int {
+	vs := divstepSlow()
+	if len(vs) == 0 {
+		return nil
+	}
+	return new(big.Int).Set(vs[Uniform(t, label+".gi", 0, len(vs)-1)])
+}
+
 var sparseLimbs = []uint64{0, 0, 1, 1, ^uint64(0), 1 << 63, 1 << 32, 1<<32 - 1, 2}
 
 // Limbs draws a 256-bit value limb by limb (four 64-bit limbs, most significant first), the way word-level code sees it:
@@ -165,7 +204,16 @@ var sparseLimbs = []uint64{0, 0, 1, 1, ^uint64(0), 1 << 63, 1 << 32, 1<<32 - 1, 
 // high limbs random" are common), class "mixed" mixes those with uniform limbs, class "fraction" gives values next to j*M/m. Values whose low (or any) word looks like a
 // small constant while the whole value does not are what truncating conversions and partial comparisons confuse.
 func Limbs(t *rapid.T, label string) (*big.Int, string) {
-	cls := Pick(t, label+".lclass", "sparse", "sparse", "mixed", "fraction")
+	cls := Pick(t, label+".lclass", "sparse", "sparse", "mixed", "fraction", "sparse", "mixed", "gcd-slow")
+	if cls == "gcd-slow" {
+		// residues on which a Euclid-style (divstep / safegcd) inversion is unusually slow to finish (vectors/divstep_slow.json,
+		// found by tools/divstepsearch: 603..615 divsteps where uniformly random values need 531 +- 10): nothing in their limbs is
+		// special, only their 2-adic continued fraction against p (or n) is
+		if v := GcdSlow(t, label); v != nil {
+			return v, "limbs-gcd-slow"
+		}
+		cls = "sparse"
+	}
 	if cls == "fraction" {
 		// wrap boundaries of small multiples: values next to j*M/m for M in {2^256, p, n}, m = 2..8 — where 2x, 3x, ... 8x computed by
 		// shifting or chained additions cross a multiple of the modulus or of 2^256
